@@ -9,11 +9,9 @@ package mongodb
 //    get pairwise different numbers.
 
 import (
-	gocontext "context"
 	"fmt"
 	"sort"
 
-	"github.com/orda-io/orda/client/pkg/context"
 	"github.com/orda-io/orda/client/pkg/errors"
 	"github.com/orda-io/orda/client/pkg/iface"
 	"github.com/orda-io/orda/client/pkg/model"
@@ -22,27 +20,6 @@ import (
 	"github.com/orda-io/orda/server/schema"
 	"github.com/orda-io/orda/server/vffake"
 )
-
-// VFNewRealRepository builds the real repository over the modelled driver.
-func VFNewRealRepository() *RepositoryMongo {
-	client := vfFakeClient()
-	db := client.Database("vf")
-	return &RepositoryMongo{
-		db:     db,
-		client: client,
-		MongoCollections: &MongoCollections{
-			mongoClient: client,
-			clients:     db.Collection(schema.CollectionNameClients),
-			counters:    db.Collection(schema.CollectionNameColNumGenerator),
-			snapshots:   db.Collection(schema.CollectionNameSnapshot),
-			datatypes:   db.Collection(schema.CollectionNameDatatypes),
-			operations:  db.Collection(schema.CollectionNameOperations),
-			collections: db.Collection(schema.CollectionNameCollections),
-		},
-	}
-}
-
-func vfCtx() iface.OrdaContext { return context.NewOrdaContext(gocontext.TODO(), "vf") }
 
 // repoAPI is the part of the repository the server uses.
 type repoAPI interface {
